@@ -66,7 +66,7 @@ static int underrun(const unsigned char* b) {
 /* ------------------------------------------------------------------ state for handle-based getters */
 static uv_pipe_t* srv; static uv_pipe_t* cli; static int connected;
 static uv_fs_event_t* fsev; static uv_fs_poll_t* fspoll;
-static unsigned char namebuf[1024]; static size_t namelen;
+static unsigned char namebuf[1 << 15]; static size_t namelen;
 
 static void free_cb(uv_handle_t* h) { free(h); }
 static void drop(uv_handle_t* h) { if (h) { uv_close(h, free_cb); } }
